@@ -266,3 +266,24 @@ mod tests {
         })))
     }
 }
+
+#[cfg(purr_verif)]
+pub fn verif_read_hcount(
+    scanner: &mut Scanner
+) -> Result<Option<VirtualHydrogen>, Error> {
+    read_hcount(scanner)
+}
+
+#[cfg(purr_verif)]
+pub fn verif_read_isotope(
+    scanner: &mut Scanner
+) -> Result<Option<Number>, Error> {
+    read_isotope(scanner)
+}
+
+#[cfg(purr_verif)]
+pub fn verif_read_map(
+    scanner: &mut Scanner
+) -> Result<Option<Number>, Error> {
+    read_map(scanner)
+}
